@@ -772,7 +772,13 @@ def install():
 
         return f
 
-    fd_dispatch("fchmod", unsupported("fchmod"))
+    def s_fchmod(fd, mode):
+        o = SEAM.fs._ofd(fd)
+        return _gate("chmod", fd, lambda f: SEAM.fs.op_chmod(o.path, mode)
+                     if SEAM.fs.ents.get(o.path) is o.inode else setattr(
+                         o.inode, "mode", mode & 0o777), "cleanup")
+
+    fd_dispatch("fchmod", s_fchmod)
     fd_dispatch("dup", unsupported("dup"))
 
     def path_dispatch(name, simfn, npaths=1):
